@@ -109,6 +109,7 @@ Definition K_NEGZ := 16.      (* String2Int64: the string "-0" for a DOUBLE fiel
 Definition K_UNKNOWN := 32.   (* an undeclared member *)
 Definition K_NULLELEM := 64.  (* null as a list / set element or map value *)
 Definition K_DBLKEY := 128.   (* a map with DOUBLE keys *)
+Definition K_BIGINT := 256.   (* a plain integer lexeme beyond the int64 range for a DOUBLE field (a conforming, finite double) *)
 Definition has (k bits : Z) : bool := negb (Z.land bits k =? 0).
 
 Definition int_bits (c : Z) : Z :=
@@ -134,8 +135,11 @@ Definition cls_num_int (bits : Z) (l : list Z) : Z :=
     end
   end.
 
+Definition big_plain_int (l : list Z) : bool :=
+  lex_is_plain_int l && match parse_int l with Some z => negb (in_sb 64 z) | None => false end.
+
 Definition cls_num_dbl (l : list Z) : Z :=
-  match lex2f64 l with Some b => if f64_is_finite b then 0 else K_OTHER | None => K_OTHER end.
+  match lex2f64 l with Some b => if f64_is_finite b then (if big_plain_int l then K_BIGINT else 0) else K_OTHER | None => K_OTHER end.
 
 Definition cls_int_text (bits : Z) (s : list Z) : Z :=
   match parse_int s with
@@ -217,19 +221,24 @@ Fixpoint classify (fuel : nat) (ds : jdefs) (o : jopt) (t : jty) (j : json) : Z 
     end
   end.
 
-(* finding 1801 (null member): the native converters treat a null member as ABSENT (required: error unless WriteRequireField; default /
-   optional: filled in when the matching write option is set), the portable converter treats it as PRESENT-and-empty (never an error,
-   never filled in).  [prune] removes from the native output exactly the fields the natives filled in for null members. *)
+(* The quirk model of the portable converter, stated RELATIVE to the native output [v] (the value tree decoded from the bytes the
+   native flavours produced for document [j]):
+   finding 1801 (null member), switch [nulls]: the native converters treat a null member as ABSENT (required: error unless
+     WriteRequireField; default / optional: filled in when the matching write option is set), the portable converter treats it as
+     PRESENT-and-empty (never an error, never filled in) — the fields the natives filled in for null members are removed;
+   finding 1806 (big integer lexeme), switch [big]: a plain integer lexeme beyond the int64 range is read as 0 by the portable
+     decoder (strconv.ParseInt range error dropped) — the DOUBLE written for such a lexeme is replaced by +0.0. *)
 Definition nonnull (l : list json) : list json := filter (fun x => negb (is_null x)) l.
 
 Fixpoint zip_with {A B C} (f : A -> B -> C) (a : list A) (b : list B) : list C :=
   match a, b with x :: a', y :: b' => f x y :: zip_with f a' b' | _, _ => [] end.
 
-Fixpoint prune (fuel : nat) (ds : jdefs) (t : jty) (j : json) (v : tval) : tval :=
+Fixpoint quirk (nulls big : bool) (fuel : nat) (ds : jdefs) (t : jty) (j : json) (v : tval) : tval :=
   match fuel with
   | O => v
   | S f =>
     match t, j, v with
+    | JScalar _ _, JNum l, VDouble _ => if big && big_plain_int l then VDouble 0 else v
     | JStruct i, JObj ms, VStruct fs =>
       match (if i <? 0 then None else nth_error ds (Z.to_nat i)) with
       | None => v
@@ -239,15 +248,15 @@ Fixpoint prune (fuel : nat) (ds : jdefs) (t : jty) (j : json) (v : tval) : tval 
                    | None => [fv]
                    | Some fd =>
                      match find_member ms (jf_name fd) with
-                     | Some jv => if is_null jv then [] else [(fst fv, prune f ds (jf_ty fd) jv (snd fv))]
+                     | Some jv => if is_null jv then (if nulls then [] else [fv]) else [(fst fv, quirk nulls big f ds (jf_ty fd) jv (snd fv))]
                      | None => [fv]
                      end
                    end) fs)
       end
-    | JList e, JArr xs, VList et es => VList et (zip_with (prune f ds e) (nonnull xs) es)
-    | JSet e, JArr xs, VSet et es => VSet et (zip_with (prune f ds e) (nonnull xs) es)
+    | JList e, JArr xs, VList et es => VList et (zip_with (quirk nulls big f ds e) (nonnull xs) es)
+    | JSet e, JArr xs, VSet et es => VSet et (zip_with (quirk nulls big f ds e) (nonnull xs) es)
     | JMap _ e, JObj ms, VMap kt vt es =>
-      VMap kt vt (zip_with (fun jv kv => (fst kv, prune f ds e jv (snd kv))) (nonnull (map snd ms)) es)
+      VMap kt vt (zip_with (fun jv kv => (fst kv, quirk nulls big f ds e jv (snd kv))) (nonnull (map snd ms)) es)
     | _, _, _ => v
     end
   end.
@@ -315,11 +324,17 @@ Definition check_1801 (fs : list field) : verdict :=
         else
           match pj, decode_all T_STRUCT on, decode_all T_STRUCT op with
           | Some j, Some vn, Some vp =>
-            let vn' := if has K_NULLK cls then prune (S (length doc)) ds (JStruct root) j vn else vn in
-            if has K_NULLK cls && bytes_eqb (encode vn') op then VKnown 1801
-            else if has K_NEGZ cls && bytes_eqb (encode (norm_negz vn')) (encode (norm_negz vp)) then
-              (if has K_NULLK cls && negb (bytes_eqb (encode vn) (encode vn')) then VKnown 1801 else VKnown 1803)
-            else VBad 2 [FB (encode vn')]
+            (* both accept, different bytes: apply the quirk models the document is eligible for, one after the other, to the native
+               output; the result must be EXACTLY the portable output; the finding reported is the first quirk that changed something *)
+            let fuel := S (length doc) in
+            let v1 := if has K_NULLK cls then quirk true false fuel ds (JStruct root) j vn else vn in
+            let v2 := if has K_BIGINT cls then quirk false true fuel ds (JStruct root) j v1 else v1 in
+            let nz := has K_NEGZ cls in
+            if bytes_eqb (encode (if nz then norm_negz v2 else v2)) (if nz then encode (norm_negz vp) else op) then
+              (if negb (bytes_eqb (encode v1) (encode vn)) then VKnown 1801
+               else if negb (bytes_eqb (encode v2) (encode v1)) then VKnown 1806
+               else if nz then VKnown 1803 else VBad 2 [])
+            else VBad 2 [FB (encode v2)]
           | _, _, _ => VBad 2 []
           end
     end
